@@ -378,3 +378,112 @@ fire("c07-move-locked-of-recipient", "C07", ["C07.move"],
      ("x/cfevesting/keeper/msg_server_move_available_vesting_by_denoms.go", "	locked := k.bank.LockedCoins(ctx, fromAccAddress)", "	locked := k.bank.LockedCoins(ctx, toAccAddress)"))
 silent("c07-max-reversed", "C07",
        (SPLIT, "	startTime := ctx.BlockTime().Unix()\n	if vestingAcc.StartTime > startTime {\n		startTime = vestingAcc.StartTime\n	}", "	startTime := vestingAcc.StartTime\n	if now := ctx.BlockTime().Unix(); now >= startTime {\n		startTime = now\n	}"))
+
+# ---------------- C09 ----------------
+CRACC = "x/cfesignature/keeper/msg_server_create_account.go"
+fire("c09-guard-deleted-newvestingaccount", "C09", ["C09.fresh"],
+     (VEST, "	if acc := ak.GetAccount(ctx, toAddress); acc != nil {\n		k.Logger(ctx).Debug(\"new vesting account account already exists error\", \"toAddress\", toAddress)\n		return sdkerrors.Wrapf(types.ErrAlreadyExists, \"new vesting account - account address: %s\", toAddress)\n	}\n", "	_ = ak\n"))
+fire("c09-guard-deleted-split", "C09", ["C09.fresh"],
+     (SPLIT, "	if acc := k.account.GetAccount(ctx, toAddress); acc != nil {\n		k.Logger(ctx).Debug(\"split vesting coins - to account already exists error\", \"toAddress\", toAddress)\n		return sdkerrors.Wrapf(types.ErrAlreadyExists, \"split vesting coins - account address: %s\", toAddress)\n	}\n", ""))
+fire("c09-guard-other-address", "C09", ["C09.fresh"],
+     (SPLIT, "	if acc := k.account.GetAccount(ctx, toAddress); acc != nil {", "	if acc := k.account.GetAccount(ctx, from); acc == nil {"))
+fire("c09-createaccount-guard-deleted", "C09", ["C09.fresh"],
+     (CRACC, "	if acc := k.authKeeper.GetAccount(ctx, accAddress); acc != nil {\n		k.Logger(ctx).Debug(\"create account - account already exists\", \"address\", msg.AccAddressString)\n		return nil, sdkerrors.Wrapf(sdkerrors.ErrInvalidRequest, \"account %s already exists\", msg.AccAddressString)\n	}\n", "	_ = sdkerrors.ErrInvalidRequest\n"))
+fire("c09-guard-logs-only", "C09", ["C09.fresh"],
+     (VEST, "	if acc := ak.GetAccount(ctx, to); acc != nil {\n		k.Logger(ctx).Debug(\"create vesting account account already exists error\", \"toAddress\", toAddress)\n		return sdkerrors.Wrapf(types.ErrAlreadyExists, \"create vesting account - account address: %s\", toAddress)\n	}", "	if acc := ak.GetAccount(ctx, to); acc != nil {\n		k.Logger(ctx).Debug(\"create vesting account account already exists error\", \"toAddress\", toAddress)\n	}"))
+fire("c09-unlock-to-address", "C09", ["C09.self"],
+     (SPLIT, "	vestingAcc, err := k.UnlockUnbondedContinuousVestingAccountCoins(ctx, from, amount)", "	vestingAcc, err := k.UnlockUnbondedContinuousVestingAccountCoins(ctx, toAddress, amount)"))
+fire("c09-unlock-writes-delegated", "C09", ["C09.self"],
+     (UNLOCK, "	k.account.SetAccount(ctx, vestingAcc)\n	return vestingAcc, nil", "	vestingAcc.DelegatedVesting = sdk.NewCoins()\n	k.account.SetAccount(ctx, vestingAcc)\n	return vestingAcc, nil"))
+silent("c09-guard-helper", "C09",
+       (SPLIT, "	if acc := k.account.GetAccount(ctx, toAddress); acc != nil {", "	acc := k.account.GetAccount(ctx, toAddress)\n	if acc != nil {"))
+
+# ---------------- C10 ----------------
+DISTYPES = "x/cfedistributor/types/sub_distributor.go"
+MINTYPES = "x/cfeminter/types/minter.go"
+fire("c10-unguarded-int64", "C10", ["C10.inventory"],
+     ("x/cfeminter/abci.go", "	if amount.IsInt64() {\n		defer telemetry.SetGaugeWithLabels(", "	if !amount.IsNegative() {\n		defer telemetry.SetGaugeWithLabels("))
+fire("c10-f15-reintroduced", "C10", ["C10.inventory"],
+     (DISTR, "		if traced := toSend.AmountOf(types.DenomToTrace); traced.IsInt64() {\n			defer telemetry.SetGaugeWithLabels(\n				[]string{types.ModuleName, \"coin_send\", types.BurnDestination},", "		if traced := toSend.AmountOf(types.DenomToTrace); !traced.IsNil() {\n			defer telemetry.SetGaugeWithLabels(\n				[]string{types.ModuleName, \"coin_send\", types.BurnDestination},"))
+fire("c10-panic-on-transfer-error", "C10", ["C10.inventory", "C10.swallow"],
+     (DISTR, "		ctx.Logger().Error(\"burn coins error\", \"state\", state, \"error\", err.Error())\n", "		panic(err)\n"))
+fire("c10-quo-unvalidated-field", "C10", ["C10.inventory"],
+     (MINTYPES, "	if m.StepDuration <= 0 {\n		return fmt.Errorf(\"stepDuration must be bigger than 0\")\n	}\n", ""))
+fire("c10-f16-reintroduced", "C10", ["C10.inventory"],
+     (MINTYPES, "	if err := sdk.ValidateDenom(params.MintDenom); err != nil {\n		return fmt.Errorf(\"denom is not valid: %w\", err)\n	}\n", ""))
+fire("c10-negative-guard-removed", "C10", ["C10.inventory"],
+     (MINT, "	if amount.IsNegative() {\n		k.Logger(ctx).Error(\"mint negative amount\"", "	if amount.IsZero() {\n		k.Logger(ctx).Error(\"mint negative amount\""))
+fire("c10-f8-reintroduced", "C10", ["C10.maybenil"],
+     (DISTR, "		if state.Account == nil {\n			continue\n		}\n", ""))
+fire("c10-f8-type-deref", "C10", ["C10.maybenil"],
+     (DISTR, "		if types.InternalAccount != state.Account.GetType() && checkIfAnyCoinIsGTE1(state.Remains) {", "		if types.InternalAccount != state.Account.Type && checkIfAnyCoinIsGTE1(state.Remains) {"))
+fire("c10-currentperiod-genesis", "C10", ["C10.currentperiod"],
+     ("x/cfeminter/types/genesis.go", "	if !gs.Params.ContainsMinter(gs.MinterState.SequenceId) {", "	if len(gs.Params.Minters) == 0 {"))
+fire("c10-perm-removed-burner", "C10", ["C10.inventory"],
+     ("app/app.go", "		cfedistributormoduletypes.DistributorMainAccount:      {authtypes.Burner},", "		cfedistributormoduletypes.DistributorMainAccount:      nil,"))
+fire("c10-perm-membership-removed", "C10", ["C10.perm", "C10.inventory"],
+     (DISTYPES, "		if !accountExistInMacPerms(account.Id) {\n			return fmt.Errorf(\"module account \\\"%s\\\" doesn't exist in maccPerms\", account.Id)\n		}", "		if account.Id == \"\" {\n			return fmt.Errorf(\"module account \\\"%s\\\" doesn't exist in maccPerms\", account.Id)\n		}"))
+fire("c10-collector-unregistered", "C10", ["C10.inventory"],
+     ("app/app.go", "		app.StakingKeeper,\n		cfedistributormoduletypes.DistributorMainAccount,", "		app.StakingKeeper,\n		\"some_unregistered_collector\","))
+silent("c10-int64-guard-helper-var", "C10",
+       ("x/cfeminter/abci.go", "	if amount.IsInt64() {\n		defer telemetry.SetGaugeWithLabels(", "	fits := amount.IsInt64()\n	if fits {\n		defer telemetry.SetGaugeWithLabels("))
+silent("c10-maccperms-reordered", "C10",
+       ("app/app.go", "		cfedistributormoduletypes.ValidatorsRewardsCollector:  nil,\n		cfedistributormoduletypes.GreenEnergyBoosterCollector: nil,", "		cfedistributormoduletypes.GreenEnergyBoosterCollector: nil,\n		cfedistributormoduletypes.ValidatorsRewardsCollector:  nil,"))
+
+# ---------------- C03 / C04 / C14 ----------------
+fire("c03-inflow-no-sub", "C03", ["C03.inflow"],
+     (DISTR, "		coinsToDistribute = coinsToDistribute.Sub(sum).Sub(alreadyCollected)", "		_ = sum\n		coinsToDistribute = coinsToDistribute.Sub(alreadyCollected)"))
+fire("c03-inflow-partial-sum", "C03", ["C03.inflow"],
+     (DISTR, "		sum := getRamainsSum(&states)", "		firstOnly := states[:1]\n		sum := getRamainsSum(&firstOnly)"))
+fire("c03-conserve-sub-deleted", ["C03", "C04"], ["C03.conserve"],
+     (DISTR, "		calculatedShare := calculatePercentage(subDistributor.Destinations.BurnShare, coinsToDistributeDec)\n		defaultShare = defaultShare.Sub(calculatedShare)", "		calculatedShare := calculatePercentage(subDistributor.Destinations.BurnShare, coinsToDistributeDec)"))
+fire("c03-conserve-mul-round", "C03", ["C03.conserve"],
+     (DISTR, "	return coinsToDistributeDec.MulDecTruncate(sharePercent)", "	return coinsToDistributeDec.MulDec(sharePercent)"))
+fire("c03-persist-continue", ["C03", "C14"], ["C03.persist", "C14.persist"],
+     (DISTR, "			} else {\n				k.sendCoinsToBaseAccount(ctx, &state)\n			}\n		}\n		k.SetState(ctx, state)", "			} else {\n				k.sendCoinsToBaseAccount(ctx, &state)\n				if state.Remains.IsZero() {\n					continue\n				}\n			}\n		}\n		k.SetState(ctx, state)"))
+fire("c03-f9-reintroduced", ["C03", "C04"], ["C03.order", "C04.order"],
+     (DISTR, "		coinsToDistribute = coinsToDistribute.Sub(sum).Sub(alreadyCollected)", "		coinsToDistribute = coinsToDistribute.Sub(sum)"))
+fire("c04-f11-reintroduced", "C04", ["C04.key"],
+     (DISTR, "		if state.Account.Type != account.Type {\n			continue\n		}\n", ""))
+fire("c04-f10-reintroduced", "C04", ["C04.everyshare"],
+     (DISTR, "		calculatedShare := calculatePercentage(share.Share, coinsToDistributeDec)\n		defaultShare = defaultShare.Sub(calculatedShare)\n		if share.Destination.Type == types.Main {\n			continue\n		}", "		if share.Destination.Type == types.Main {\n			continue\n		}\n		calculatedShare := calculatePercentage(share.Share, coinsToDistributeDec)\n		defaultShare = defaultShare.Sub(calculatedShare)"))
+fire("c04-fraction-of-remainder", "C04", ["C04.fraction"],
+     (DISTR, "		calculatedShare := calculatePercentage(share.Share, coinsToDistributeDec)", "		calculatedShare := calculatePercentage(share.Share, defaultShare)"))
+fire("c04-share-to-primary-dest", "C04", ["C04.fraction"],
+     (DISTR, "			localRemains = k.addSharesToAccountState(ctx, localRemains, &share.Destination, calculatedShare, findFunc)", "			localRemains = k.addSharesToAccountState(ctx, localRemains, &subDistributor.Destinations.PrimaryShare, calculatedShare, findFunc)"))
+fire("c14-remains-before-check", "C14", ["C14.success"],
+     (DISTR, "	if err := k.SendCoinsFromModuleToModule(ctx, toSend, types.DistributorMainAccount, state.Account.Id); err != nil {\n		ctx.Logger().Error(\"send coins to module account dst error\"", "	state.Remains = change\n	if err := k.SendCoinsFromModuleToModule(ctx, toSend, types.DistributorMainAccount, state.Account.Id); err != nil {\n		ctx.Logger().Error(\"send coins to module account dst error\""))
+fire("c14-sweep-reports-on-failure", "C14", ["C14.sweep"],
+     (DISTR, "			k.Logger(ctx).Error(\"prep coins module - send coins to main account\", \"subDistributorName\", subDistributorName, \"source\", source, \"error\", err.Error())\n			return nil", "			k.Logger(ctx).Error(\"prep coins module - send coins to main account\", \"subDistributorName\", subDistributorName, \"source\", source, \"error\", err.Error())\n			return coinsToDistribute"))
+fire("c14-error-escalates", "C14", ["C14.noerrorexit"],
+     (DISTR, "			k.Logger(ctx).Error(\"prepare coin to distribute for internal account error\", \"error\", err.Error())\n			return nil", "			panic(err)"))
+silent("c03-sum-inline", ["C03", "C04", "C14"],
+       (DISTR, "		sum := getRamainsSum(&states)\n		// coins collected from the other sources of this sub-distributor already sit in the main account\n		coinsToDistribute = coinsToDistribute.Sub(sum).Sub(alreadyCollected)", "		coinsToDistribute = coinsToDistribute.Sub(getRamainsSum(&states)).Sub(alreadyCollected)"))
+silent("c04-key-via-accountkey", "C04",
+       (DISTR, "		if state.Account.Type != account.Type {\n			continue\n		}\n", "		if state.Account.GetAccountKey() != account.GetAccountKey() {\n			continue\n		}\n"))
+
+# ---------------- C20 ----------------
+fire("c20-f4-reintroduced-vb", "C20", ["C20.nilfield"],
+     ("x/cfedistributor/types/message_update_params.go", "	if msg.SubDistributor == nil {\n		return errors.Wrapf(govtypes.ErrInvalidProposalContent, \"validation error: sub distributor cannot be nil\")\n	}\n", ""))
+fire("c20-isnil-guard-deleted", "C20", ["C20.nilfield"],
+     ("x/cfevesting/types/message_create_vesting_pool.go", "	if amount.IsNil() {\n		return nil, errors.Wrap(ErrAmount, \"add vesting pool - amount cannot be nil\")\n	}\n", ""),
+     ("x/cfevesting/keeper/msg_server_create_vesting_pool.go", "	if msg.Amount.IsNil() {\n		return nil, sdkerrors.Wrap(types.ErrParam, \"add vesting pool - amount is nil\")\n	}\n", "	_ = sdkerrors.Wrap\n"))
+fire("c20-f7-reintroduced", "C20", ["C20.nilresult"],
+     ("x/cfesignature/keeper/grpc_query_get_account_info.go", "	pubKey := \"\"\n	if pk := accountInfo.GetPubKey(); pk != nil {\n		pubKey = pk.String()\n	}", "	pubKey := accountInfo.GetPubKey().String()"))
+fire("c20-f3-reintroduced", "C20", ["C20.nilness"],
+     (VEST, "			k.Logger(ctx).Error(\"new vesting account from vesting pool emit event error\", \"error\", eventErr.Error())", "			k.Logger(ctx).Error(\"new vesting account from vesting pool emit event error\", \"error\", err.Error())"))
+fire("c20-f20-reintroduced", "C20", ["C20.inventory"],
+     ("x/cfesignature/keeper/msg_server_store_signature.go", "	if len(msg.StorageKey) == 0 {\n		return nil, sdkerrors.Wrap(sdkerrors.ErrInvalidRequest, \"storage key cannot be empty\")\n	}\n", ""),
+     ("x/cfesignature/types/message_store_signature.go", "	if len(msg.StorageKey) == 0 {\n		return sdkerrors.Wrap(sdkerrors.ErrInvalidRequest, \"storage key cannot be empty\")\n	}\n", ""))
+silent("c20-handler-guard-only-in-validatebasic", "C20",
+     ("x/cfesignature/keeper/msg_server_store_signature.go", "	if len(msg.StorageKey) == 0 {\n		return nil, sdkerrors.Wrap(sdkerrors.ErrInvalidRequest, \"storage key cannot be empty\")\n	}\n", ""))
+fire("c20-f5-reintroduced", "C20", ["C20.inventory"],
+     ("x/cfevesting/types/message_move_available_vesting_by_denoms.go", "		if err := sdk.ValidateDenom(denom); err != nil {\n			return nil, nil, errors.Wrapf(ErrParam, \"move available vesting by denoms - invalid denomination at position %d: %s\", i, err)\n		}\n", ""))
+fire("c20-signers-unvalidated", "C20", ["C20.signers"],
+     ("x/cfevesting/types/message_withdraw_all_available.go", "func (msg *MsgWithdrawAllAvailable) ValidateBasic() error {", "func (msg *MsgWithdrawAllAvailable) ValidateBasic() error {\n	if len(msg.Owner) > 0 {\n		return nil\n	}"))
+fire("c20-must-on-input", "C20", ["C20.inventory"],
+     ("x/cfesignature/keeper/grpc_query_get_account_info.go", "	accAddress, _ := sdk.AccAddressFromBech32(req.AccAddressString)", "	accAddress := sdk.MustAccAddressFromBech32(req.AccAddressString)"))
+fire("c20-type-assert-unchecked", "C20", ["C20.inventory"],
+     ("x/cfevesting/keeper/grpc_query_vestings_summary.go", "		if continuousVestingAccount, ok := vestingAccount.(*vestingtypes.ContinuousVestingAccount); ok {", "		ok := vestingAccount != nil\n		if continuousVestingAccount := vestingAccount.(*vestingtypes.ContinuousVestingAccount); ok {"))
+silent("c20-nil-check-switch-form", "C20",
+       ("x/cfedistributor/types/message_update_params.go", "	if msg.SubDistributor == nil {\n		return errors.Wrapf(govtypes.ErrInvalidProposalContent, \"validation error: sub distributor cannot be nil\")\n	}\n", "	switch {\n	case msg.SubDistributor == nil:\n		return errors.Wrapf(govtypes.ErrInvalidProposalContent, \"validation error: sub distributor cannot be nil\")\n	}\n"))
